@@ -57,8 +57,13 @@
        - TournamentSelection<RankOrdering>: the winner is a drawn individual of least rank among the drawn ones;
        - ElitistSelection: exactly mu individuals marked, none of them after an unmarked one in the ordering, for every
          sort routine returning an ordered permutation (the model's insertion sort is one);
-       These are statements over Q.  On doubles the clipping does not catch NaN: PolynomialMutator on a coordinate with
-       lower = upper computes 0/0 (see NOT PROVED);
+       These are statements over Q with the DIVISION AN ARBITRARY FUNCTION (they do not lean on Q's x/0 = 0).  History: before
+       /repo commit c8cdcf67 PolynomialMutator divided by the width upper - lower also when it is 0; the rational model
+       evaluated 0/0 = 0, the clipping made the in-box statement true, and so the Q-model HID the NaN the C++ produced
+       (0/0 = NaN is not caught by `if (x < lower) .. if (x > upper)`).  The repaired code takes an explicit branch for
+       upper == lower; the model follows it (C14_polynomial_mutation_degenerate_coordinate_unchanged: value kept, one draw
+       consumed; C14_polynomial_mutation_divides_by_positive_width_only), and tools/c14.py checks, independently of the
+       model, that every child coordinate the C++ operators print is a finite number inside [lower, upper];
      * the generation loop shared by RealCodedNSGAII / NSGAIII / MOCMA (offspring -> PenalizingEvaluator -> merge -> selection ->
        partition -> erase) and by SMS-EMOA / steady-state MOCMA (C14Loop.v; updatePopulation runs next to the model on every
        check, stream U): for every valid indicator, every history of offspring points (whatever variation and random numbers
@@ -80,8 +85,8 @@
      * CrowdingDistance when some objective is constant over front ++ archive: the C++ divides 0/0, the interior members
        get NaN and std::min_element may then return a boundary member (the float instance of the model reproduces this
        bit for bit and is compared; the rational theorem does not speak about NaN); counted in the evidence notes;
-     * PolynomialMutator on a degenerate coordinate lower(i) = upper(i): the C++ yields NaN (0/0, not caught by the clipping);
-       the float instance of the model reproduces it; reported to the lead, counted in the evidence notes;
+     * absence of NaN / overflow in the floating-point evaluation of the variation operators in general (the theorems are over
+       Q; on the C++ output finiteness and box membership are monitored on every run, keys variation:*-nan / *-outside-box);
      * NSGA3Indicator: the plane solver (its answer is re-derived by the harness and handed to the model); that the
        niche counts equal the number of assigned associated points (only termination + validity of the index set and
        positivity of the normalizer are proved);
@@ -405,35 +410,51 @@ Print Assumptions C14_crowding_example.
 (* variation and mating-selection operators as coded (C14Var.v), rational instance *)
 
 Theorem C14_sbx_children_in_box :
-  forall (two half tol nexpp iexpp : Q) (abs : Q -> Q) (pow : Q -> Q -> Q) prob lower upper p1 p2 us,
+  forall (two half tol nexpp iexpp : Q) (abs : Q -> Q) (pow dv : Q -> Q -> Q) prob lower upper p1 p2 us,
     box_ok lower upper -> in_box lower upper p1 -> in_box lower upper p2 ->
-    let r := sbx Q 0%Q 1%Q two half tol Qplus Qminus Qmult Qdiv abs pow qltb nexpp iexpp prob lower upper p1 p2 us in
+    let r := sbx Q 0%Q 1%Q two half tol Qplus Qminus Qmult dv abs pow qltb nexpp iexpp prob lower upper p1 p2 us in
     in_box lower upper (fst (fst r)) /\ in_box lower upper (snd (fst r)).
 Proof. exact sbx_in_box. Qed.
 Print Assumptions C14_sbx_children_in_box.
 
 Theorem C14_sbx_recomputed_coordinate_in_box :
-  forall (two half tol nexpp iexpp : Q) (abs : Q -> Q) (pow : Q -> Q -> Q) prob lo hi x1 x2 us,
+  forall (two half tol nexpp iexpp : Q) (abs : Q -> Q) (pow dv : Q -> Q -> Q) prob lo hi x1 x2 us,
     (lo <= hi)%Q ->
-    let r := sbx_coord Q 0%Q 1%Q two half tol Qplus Qminus Qmult Qdiv abs pow qltb nexpp iexpp prob lo hi x1 x2 us in
+    let r := sbx_coord Q 0%Q 1%Q two half tol Qplus Qminus Qmult dv abs pow qltb nexpp iexpp prob lo hi x1 x2 us in
     (fst (fst r) = x1 /\ snd (fst r) = x2) \/
     ((lo <= fst (fst r) <= hi)%Q /\ (lo <= snd (fst r) <= hi)%Q).
 Proof. exact sbx_recomputed_coordinate_in_box. Qed.
 Print Assumptions C14_sbx_recomputed_coordinate_in_box.
 
 Theorem C14_polynomial_mutation_child_in_box :
-  forall (two half nm1 inm1 : Q) (pow : Q -> Q -> Q) prob lower upper p us,
+  forall (two half nm1 inm1 : Q) (pow dv : Q -> Q -> Q) prob lower upper p us,
     box_ok lower upper -> in_box lower upper p ->
-    in_box lower upper (fst (pm Q 0%Q 1%Q two half Qplus Qminus Qmult Qdiv pow qltb nm1 inm1 prob lower upper p us)).
+    in_box lower upper (fst (pm Q 0%Q 1%Q two half Qplus Qminus Qmult dv pow qltb nm1 inm1 Qeq_bool prob lower upper p us)).
 Proof. exact pm_in_box. Qed.
 Print Assumptions C14_polynomial_mutation_child_in_box.
 
 Theorem C14_polynomial_mutation_mutated_coordinate_in_box :
-  forall (two half nm1 inm1 : Q) (pow : Q -> Q -> Q) prob lo hi x us,
+  forall (two half nm1 inm1 : Q) (pow dv : Q -> Q -> Q) prob lo hi x us,
     (lo <= hi)%Q -> qltb (hd 0%Q us) prob = true -> (0 <= hd 0%Q (tl us) <= 1)%Q ->
-    (lo <= fst (pm_coord Q 0%Q 1%Q two half Qplus Qminus Qmult Qdiv pow qltb nm1 inm1 prob lo hi x us) <= hi)%Q.
+    (lo <= fst (pm_coord Q 0%Q 1%Q two half Qplus Qminus Qmult dv pow qltb nm1 inm1 Qeq_bool prob lo hi x us) <= hi)%Q.
 Proof. exact pm_mutated_coordinate_in_box. Qed.
 Print Assumptions C14_polynomial_mutation_mutated_coordinate_in_box.
+
+(* the explicit branch of /repo commit c8cdcf67: a coordinate with lower == upper keeps its value, one draw consumed *)
+Theorem C14_polynomial_mutation_degenerate_coordinate_unchanged :
+  forall (two half nm1 inm1 : Q) (pow dv : Q -> Q -> Q) prob lo hi x us,
+    (lo == hi)%Q -> (lo <= x <= hi)%Q ->
+    pm_coord Q 0%Q 1%Q two half Qplus Qminus Qmult dv pow qltb nm1 inm1 Qeq_bool prob lo hi x us = (x, tl us).
+Proof. exact pm_degenerate_coordinate_unchanged. Qed.
+Print Assumptions C14_polynomial_mutation_degenerate_coordinate_unchanged.
+
+Theorem C14_polynomial_mutation_divides_by_positive_width_only :
+  forall (two half nm1 inm1 : Q) (pow dv : Q -> Q -> Q) prob lo hi x us,
+    (lo <= hi)%Q -> qltb (hd 0%Q us) prob = true -> (qltb x lo || qltb hi x) = false ->
+    snd (pm_coord Q 0%Q 1%Q two half Qplus Qminus Qmult dv pow qltb nm1 inm1 Qeq_bool prob lo hi x us) <> tl us ->
+    (0 < hi - lo)%Q.
+Proof. exact pm_formula_branch_has_positive_width. Qed.
+Print Assumptions C14_polynomial_mutation_divides_by_positive_width_only.
 
 Theorem C14_tournament_selection_returns_best_drawn :
   forall (key : nat -> nat) (drawn : list nat), drawn <> [] ->
